@@ -297,6 +297,9 @@ def r3_partition(L, repo):
         EMIT = canon(lp.iter)
         mv = name_of(lp.target)
         lits = guard_literals(cfg, node)
+        # a test that the queue is not empty withholds nothing: with an empty queue there is no due message
+        benign = {("self._tx_queue", True), ("0 < len(self._tx_queue)", True), ("0 == len(self._tx_queue)", False)}
+        lits = set(lits) - benign
         want = {("for %s in %s" % (mv, EMIT), True), ("self.running", True)}
         L.require("C03.R3", F, fn, "each due message is forwarded unconditionally, once",
                   lit_fmt(want), lit_fmt(lits), line=c.lineno)
@@ -312,7 +315,8 @@ def r3_partition(L, repo):
             if logs:
                 DROP = canon(n.iter)
                 node = cfg.node_of(logs[0])
-                lits = guard_literals(cfg, node)
+                lits = set(guard_literals(cfg, node)) - {("self._tx_queue", True), ("0 < len(self._tx_queue)", True),
+                                                         ("0 == len(self._tx_queue)", False)}
                 want = {("for %s in %s" % (canon(n.target), DROP), True), ("self.running", True)}
                 L.require("C03.R3", F, fn, "every stale message is reported", lit_fmt(want), lit_fmt(lits),
                           line=logs[0].lineno)
